@@ -46,7 +46,12 @@ def run_job(job: dict) -> dict:
     K.SECOND_OPINION = job.get("tier") == "thorough" or bool(os.environ.get("VERIF_SECOND_OPINION"))
     n, bad = K.validate(int(os.environ.get("VERIF_SEED", "0") or 0))
     fn, _rp = KERNELS[kname]
-    results = fn(flavour) if flavour else fn()
+    if kname in K.VALIDATION_UNAVAILABLE:
+        # the differential validation of this kernel's encoding could not run on the current source (a construct
+        # outside the modelled subset): the obligation is not discharged - neither a pass nor an alarm
+        results = [K.Result(kname, "encoding validated against the real function", "unsupported", K.VALIDATION_UNAVAILABLE[kname])]
+    else:
+        results = fn(flavour) if flavour else fn()
     res: dict[str, typing.Any] = {
         "key": job["key"], "shard": shard, "mode": "check",
         "functions": sorted({r.kernel for r in results}),
